@@ -43,7 +43,7 @@ type Registry struct {
 	Heads  []HeadCall
 	// TagLists records what each Tags call returned.
 	TagLists []TagCall
-	Fetches []HeadCall
+	Fetches  []HeadCall
 }
 
 // New returns an empty registry.
